@@ -222,6 +222,8 @@ class Ctx:
                     platname = ["native", "portable", "sse2", "sse41", "avx2", "avx512"][int(plat)] if int(plat) < 6 else "native"
                     rargs = list(args) + ["--only", case, "--platforms", platname]
                     owner = "C07" if (args[0] in ("kern", "probes") or "--guard" in args) else self.pid
+                    if self.pid == "C05" and args[0] == "kern":
+                        owner = "C05"  # a kernel that dies yields no result either
                     self.add_violation("%s/%s/fatal-signal-%s" % (owner, args[0], sig),
                                        "fatal signal %s at address %s while case %s (platform %s) was in flight" % (sig, addr, case, platname),
                                        {"kind": "mon", "flavour": flavour, "profile": profile, "args": rargs, "seed": self.seed, "tier": self.tier})
